@@ -105,6 +105,17 @@ def builtin_call_programs():
                     out.append(pre + g + a + b"R.")
             out.append(b"\x80\x02" + g + b")\x81.")
             out.append(b"}" + g + f1 + f2 + b"\x86RNs.")          # as a dict key
+    # the two interpreted callables on text that is not valid UTF-8 / not latin-1: truncated and overlong sequences,
+    # lone lead and continuation bytes at the end, in the middle, doubled
+    bad = [b"\xc2", b"\xc3", b"a\xc2", b"ab\xc3", b"\xc3(", b"\xc2\xc2", b"\xc3\xff", b"\xe2\x82", b"\xf0\x9f\x98", b"\xc1\x80", b"\xc0\xaf",
+           b"\x80", b"\xbf", b"\xc2\x80\xc3", b"\xed\xa0\x80", b"\xc3\xa9\xc2", b"\xc4\x80", b"\xc3\xbf\xc4", b"\xff", b"\xc2\x7f", b"\xc3\xc0"]
+    for t in bad:
+        for tf in (b"X" + bytes([len(t), 0, 0, 0]) + t, b"\x8c" + bytes([len(t)]) + t, b"V" + t + b"\n", b"U" + bytes([len(t)]) + t):
+            for enc in (b"X\x06\x00\x00\x00latin1", b"U\x07latin-1", b"X\x07\x00\x00\x00latin-1"):
+                for pre in (b"", b"\x80\x02", b"\x80\x03"):
+                    out.append(pre + b"c_codecs\nencode\n" + tf + enc + b"\x86R.")
+                    out.append(pre + b"c__builtin__\nbytearray\n" + tf + enc + b"\x86R.")
+                    out.append(pre + b"cbuiltins\nbytearray\n" + tf + enc + b"\x86R.")
     return out
 
 def escape_programs():
